@@ -64,13 +64,13 @@ var c17Stores = []string{"multiarray", "merged", "simple"}
 
 type c17Case struct {
 	diverges bool
-	src    string
-	nrules int
-	name   string
-	seed   []string
-	limit  int
-	store  string
-	opt    string // "", "temporal-empty", "temporal-3", "detorder": further evaluation options next to the limit
+	src      string
+	nrules   int
+	name     string
+	seed     []string
+	limit    int
+	store    string
+	opt      string // "", "temporal-empty", "temporal-3", "detorder": further evaluation options next to the limit
 }
 
 func c17Cases(thorough bool) []c17Case {
